@@ -150,6 +150,11 @@ type Op struct {
 	// Prepare with target only: while the backend Mount of this call is in progress the
 	// harness itself calls Prepare(Target, "") ("prepare") or View(Target, "") ("view")
 	Inject string `json:"inject,omitempty"`
+	// Prepare / View: filesystem fault under snapshots/ planted before the call: a
+	// populated directory ("dir") or a regular file ("file") named like the NEXT snapshot id
+	// (what a Prepare that died between rename and commit leaves: the id sequence was never
+	// committed, so the next snapshot gets the same id and the rename onto it fails)
+	Plant string `json:"plant,omitempty"`
 	// fault script for this operation
 	MountFail   bool `json:"mount_fail,omitempty"`
 	CheckFail   bool `json:"check_fail,omitempty"` // every Check call of this operation fails
@@ -182,11 +187,17 @@ func (o Op) String() string {
 		if o.Inject != "" {
 			f += ",during-mount:" + o.Inject + "(" + o.Target + ")"
 		}
+		if o.Plant != "" {
+			f += ",planted-next-id:" + o.Plant
+		}
 		return fmt.Sprintf("Prepare(%s,parent=%q%s%s)", o.Key, o.Parent, t, f)
 	case "view":
 		f := ""
 		if o.CheckFail {
 			f = ",checkfail"
+		}
+		if o.Plant != "" {
+			f += ",planted-next-id:" + o.Plant
 		}
 		return fmt.Sprintf("View(%s,parent=%q%s)", o.Key, o.Parent, f)
 	case "commit":
